@@ -35,6 +35,7 @@ impl Outcome {
 }
 
 fn berr(e: BuilderError) -> Outcome {
+    // the entry tokens of the case are not consumed when build() fails
     Outcome::Berr(match e {
         BuilderError::NotEnoughData(_) => "NotEnoughData",
         BuilderError::Monotonic(_) => "Monotonic",
@@ -614,7 +615,7 @@ pub fn run_line(line: &str) -> String {
         };
         match r {
             Ok(o) => {
-                if t.done() {
+                if matches!(o, Outcome::Berr(_)) || t.done() {
                     o.show()
                 } else {
                     "bad-op trailing tokens".into()
